@@ -32,6 +32,7 @@ type Opts struct {
 	ServerIP      string
 	ServerPort    int
 	HintMandatory bool
+	Quotas        map[string][]*appctlpb.Quota // optional per-user quotas
 	Net           *simnet.Net // optional existing network
 }
 
@@ -97,7 +98,7 @@ func StartServer(o Opts) (*Rig, error) {
 	}
 	users := map[string]*appctlpb.User{}
 	for n, p := range o.Users {
-		users[n] = &appctlpb.User{Name: proto.String(n), Password: proto.String(p)}
+		users[n] = &appctlpb.User{Name: proto.String(n), Password: proto.String(p), Quotas: o.Quotas[n]}
 	}
 	sp := protocol.NewUnderlayProperties(o.ServerMTU, o.tp(), o.serverAddr(), nil)
 	r.Server = protocol.NewMux(false).
